@@ -6,15 +6,21 @@
      input of guard_C14_total = guard_C14 && addresses_resolve && wrap_ready && target_unshadowed.
    * "guard_C14 covers single-pair non-eval calls": C14_multi_placed covers any number of pairs (non-eval).
 
-   NOT proved here:
-   * success for several pairs (C14_multi_placed is conditional on the write, like C14_partial);
-   * for several pairs, that the node put at each position carries the input's annotation / value (the template
-     applied twice to a shared input node is inside guard_C14_multi; only positions and the frame are stated);
-   * that target_unshadowed follows from guard_C14 (it is sufficient, not necessary: C14_total_side_conditions;
-     the exact condition - the first node carrying the location is the argument - is believed to follow from the
-     position equality in guard_C14, which needs uniqueness of tree positions as identities);
+   NOT proved here (state after round 2):
+   * target_unshadowed is no longer needed: C14_success' / C14_partial_total' hold under
+     guard_C14_total' = guard_C14 && addresses_resolve && wrap_ready (tree positions are unique identities in a
+     freshly annotated tree: arg_free_module in proofs/C14Success.v);
+   * success for several pairs is proved (C14_multi_total) only without a template (no_wrap) and when find_in_ast
+     attaches no [default] attribute on the way to an input address (logs_empty: the addressed input nodes are
+     assignments, class attributes, or arguments without default) - then the input tree is not mutated between the
+     pairs; with a template or defaults the theorem for several pairs stays conditional on the write
+     (C14_multi_placed).  Closing this needs: find_in_ast commutes with apply_dlog / set_ann_by_id on the input tree;
+   * for several pairs, that the node put at each position carries the input's annotation / value (only positions
+     and the frame are stated);
+   * that class_loc_free (in guard_C14_multi) follows from the single-pair guard (same position-uniqueness argument
+     as for target_unshadowed, not carried out);
    * that the dynamic component of guard_C14_multi (quiet_loop, evaluated along the run of the model) equals the
-     static condition  dotted ip_i <> dotted op_j for i < j  (believed inside the single-pair guard region);
+     static condition  dotted ip_i <> dotted op_j for i < j;
    * eval mode (--input-eval) for any number of pairs. *)
 From Coq Require Import List ZArith.
 From Coq Require String.
@@ -97,3 +103,43 @@ Theorem C14_multi_refuted :
                     (written_tree (run_C14 x_swap)) = Some [Some (EName (L "int")); None]).
 Proof. exact C14_multi_refuted_lemma. Qed.
 Print Assumptions C14_multi_refuted.
+
+(* ---------------------------------------------------------------------------------------------- round 2 *)
+(* the same two theorems without target_unshadowed *)
+Theorem C14_success' : forall x, guard_C14_total' x = true ->
+    exists tree, run_C14 x = ([EvWrite FOutput tree], Ok tt).
+Proof. exact C14_success_lemma'. Qed.
+Print Assumptions C14_success'.
+
+Theorem C14_partial_total' : forall x, guard_C14_total' x = true -> C14_total_holds x /\ C14_holds x.
+Proof. exact C14_partial_total_lemma'. Qed.
+Print Assumptions C14_partial_total'.
+
+(* the input that target_unshadowed excluded is covered now *)
+Theorem C14_shadow_covered :
+  guard_C14_total' (w_call w_in [L "f.a"] w_out_shadow [L "C.z"] None) = true
+  /\ guard_C14_total (w_call w_in [L "f.a"] w_out_shadow [L "C.z"] None) = false.
+Proof. exact C14_total_shadow_covered. Qed.
+Print Assumptions C14_shadow_covered.
+
+(* several pairs, unconditional: the call succeeds with one write of the output file AND every pair landed at the
+   position its output address resolves to in the original output file (no template, no default attached to an
+   addressed input node) *)
+Theorem C14_multi_total : forall x, guard_C14_multi_total x = true -> C14_multi_total_holds x.
+Proof. exact C14_multi_total_lemma. Qed.
+Print Assumptions C14_multi_total.
+
+Theorem C14_multi_total_nonvacuous :
+  guard_C14_multi_total x_mt_mixed = true /\ C14_at_b x_mt_mixed = true
+  /\ guard_C14_multi_total (w_call w_in_ff [L "f.a"; L "f.b"] w_out_ff [L "f.a"; L "f.b"] None) = true
+  /\ guard_C14_multi_total (w_call w_in_cls [L "K.lr"; L "K.m.a"] w_out_cls [L "Cfg.lr"; L "train.x"] None) = true.
+Proof. exact C14_multi_total_nonvacuous_lemma. Qed.
+Print Assumptions C14_multi_total_nonvacuous.
+
+Theorem C14_multi_total_needs :
+  (guard_C14_multi x_hz = true /\ addresses_resolve x_hz = true /\ logs_empty x_hz = true
+   /\ hazard_free_pairs x_hz (ci_ips x_hz) (ci_ops x_hz) = false /\ run_C14 x_hz = ([], Err Unmodelled))
+  /\ (guard_C14_multi (x_multi3 None) = true /\ logs_empty (x_multi3 None) = false
+      /\ is_write (run_C14 (x_multi3 None)) = true).
+Proof. exact C14_multi_total_side_conditions. Qed.
+Print Assumptions C14_multi_total_needs.
